@@ -3,6 +3,7 @@ mod crash;
 mod disk;
 mod events;
 mod exec;
+mod explorer;
 mod gen_;
 mod model;
 mod oracle;
@@ -13,6 +14,7 @@ mod scenario;
 mod shrink;
 mod sim;
 mod twin;
+mod web;
 mod world;
 
 fn main() {
